@@ -208,6 +208,18 @@ PROPS = {
                 "with the Lean requirement-parser model; non-trivial = distinct accepted texts",
         "trusted": ["pep440_rs / url printers re-parse to themselves (checked on every generated value by the round trip itself)"], "assumptions": [],
     },
+    "C16": {
+        "lean_targets": ["Pep508.Theorems.C16"],
+        "theorems": ["Pep508.C16.cmp_eq_iff", "Pep508.C16.cmp_eq_iff_beq", "Pep508.C16.cmp_swap", "Pep508.C16.cmp_trans", "Pep508.C16.cmp_trans_le",
+                     "Pep508.C16.cmp_total", "Pep508.C16.sorted_unique", "Pep508.C16.strictSorted_unique", "Pep508.Tree.cmp_transAt", "Pep508.cmpIvl_eq_iff"],
+        "suites": [{"name": "hist", "args": ["C16"]}],
+        "rule": "a pool of markers is built through the real API along random construction paths (typed expressions, and/or/negate, simplify_extras, "
+                "simplify/complexify_python_versions, plus shapes generated on purpose); random pairs/triples: cmp is compared with the Lean transcription of the structural Ord (variant order, key, Ranges bound comparison, lexicographic edges); "
+                "cmp == Equal iff ==, antisymmetry, transitivity, equal => equal hash; a table of requirement strings (same URL under different verbatim texts / variable expansion / host case, "
+                "specifier and extras order, markers in different spellings) is checked pairwise and in triples for Eq/Ord/Hash agreement of Requirement and VerbatimUrl; order across fresh "
+                "processes is part of the C14 histories; non-trivial = pairs that are not equal",
+        "trusted": [], "assumptions": [],
+    },
 }
 
 # suites are ready, theorems still being proved: not claimed until then
@@ -231,17 +243,6 @@ PENDING = {
                 "threads race to create the same NEW nodes; every thread's transcript must equal the others' and a sequential run in a fresh process; panics and a 60 s deadlock "
                 "watchdog are reported; non-trivial = (round, thread count) pairs",
         "trusted": ["memory ordering of the lock-free arena reads and deadlock-freedom of std::sync::Mutex are outside any executable model"], "assumptions": [],
-    },
-    "C16": {
-        "lean_targets": ["Pep508.Model.Kind"],
-        "theorems": ["Pep508.C02.eval_and"],
-        "suites": [{"name": "hist", "args": ["C16"]}],
-        "rule": "a pool of markers is built through the real API along random construction paths (typed expressions, and/or/negate, simplify_extras, "
-                "simplify/complexify_python_versions, plus shapes generated on purpose); random pairs/triples: cmp is compared with the Lean transcription of the structural Ord (variant order, key, Ranges bound comparison, lexicographic edges); "
-                "cmp == Equal iff ==, antisymmetry, transitivity, equal => equal hash; a table of requirement strings (same URL under different verbatim texts / variable expansion / host case, "
-                "specifier and extras order, markers in different spellings) is checked pairwise and in triples for Eq/Ord/Hash agreement of Requirement and VerbatimUrl; order across fresh "
-                "processes is part of the C14 histories; non-trivial = pairs that are not equal",
-        "trusted": [], "assumptions": [],
     },
     "C18": {
         "lean_targets": ["Pep508.Model.ReqParse"],
@@ -294,10 +295,12 @@ MANIFEST_TEXT = {
         "note": _NOTE + "partial by nature: memory ordering of lock-free reads, Mutex deadlock-freedom and the claim that the lock spans the whole recursion are outside the model.",
     },
     "C16": {
-        "technique": "Lean transcription of the structural Ord (Tree.cmp with version-ranges bound comparison) compared with cmp on every pair; lawfulness theorems added as proved; Eq/Ord/Hash oracle",
-        "text": "cmp of the implementation equals the model's Tree.cmp on literal dumps; Equal iff ==, antisymmetry, transitivity and hash agreement are checked on pairs and triples of markers, "
-                "requirements and verbatim URLs.",
-        "note": _NOTE + "partial until Tree.cmp lawfulness is in the theorem list.",
+        "technique": "Lean 4 theorems: the structural Ord (Tree.cmp with the version-ranges bound comparison) is a lawful total order consistent with structural equality, for ALL diagrams; "
+                     "compared with cmp of the implementation on every pair; Eq/Ord/Hash oracle for Requirement and VerbatimUrl",
+        "text": "cmp = Equal iff equal, antisymmetry (swap), transitivity in all mixed forms, totality, uniqueness of sorted output (sorted_unique) proved by mutual structural recursion with a "
+                "transitivity bundle closed under lexicographic combination; the implementation's cmp equals the model's on literal dumps; hash equality of == markers and the derived "
+                "Eq/Ord/Hash of Requirement / VerbatimUrl (parsed URL only) are checked on pairs and triples.",
+        "note": _NOTE + "Requirement's derived Ord/Hash and VerbatimUrl's three impls are checked by oracle, not modelled; Eq/Hash by NodeId = structure is C14.",
     },
     "C18": {
         "technique": "Lean model of the URL scan and of `${NAME}` expansion compared exhaustively on bounded URL tails x contexts x environments; rule oracle from the property text",
